@@ -225,3 +225,18 @@ impl<D: DataMut> GLWECompressedToMut for GLWECompressed<D> {
         }
     }
 }
+
+/// Verification hook (cargo feature `verif-hooks`): access to the body polynomial of a compressed
+/// GLWE, so that a harness can install arbitrary contents without running an encryption.
+#[cfg(feature = "verif-hooks")]
+impl<D: poulpy_hal::layouts::DataMut> GLWECompressed<D> {
+    pub fn verif_data_mut(&mut self) -> &mut VecZnx<D> {
+        &mut self.data
+    }
+}
+#[cfg(feature = "verif-hooks")]
+impl<D: poulpy_hal::layouts::DataRef> GLWECompressed<D> {
+    pub fn verif_data(&self) -> &VecZnx<D> {
+        &self.data
+    }
+}
